@@ -319,6 +319,60 @@ theorem visitEq_cycleRec (cfg : Cfg) (k : Cycle) (top : Nat) (h : top ≤ cfg.cr
   | F => have := visitEq_recF cfg (cfg.crsLvl - top) (by omega); rwa [e] at this
   | W => have := visitEq_recW cfg (cfg.crsLvl - top) (by omega); rwa [e] at this
 
+/-! ## sizes and untouched levels -/
+
+theorem step_size (cfg : Cfg) (ins : Instr) (s : St) : (step cfg ins s).lv.size = s.lv.size := by
+  cases ins with
+  | rest i sm => exact stepRest_size cfg i sm s
+  | prol i sm => exact stepProl_size cfg i sm s
+  | peak i => exact stepPeak_size cfg i s
+  | coarse => exact stepCoarse_size cfg s
+
+theorem exec_size (cfg : Cfg) (p : List Instr) (s : St) : (exec (step cfg) p s).lv.size = s.lv.size := by
+  induction p generalizing s with
+  | nil => rfl
+  | cons i p ih =>
+    show (exec (step cfg) p (step cfg i s)).lv.size = _
+    rw [ih, step_size]
+
+/-- one application never changes the number of level-vector records of the object -/
+theorem applyOnce_size (levels : Array Level) (k : Cycle) (cgc : Cgc) (top crs : Nat) (d : Vec) (o : Obj) :
+    (applyOnce levels k cgc top crs d o).2.lv.size = o.lv.size := by
+  unfold applyOnce
+  rcases cycleIter k crs top o.counters with ⟨prog, cnt⟩
+  cases prog with
+  | none => rfl
+  | some p =>
+    show (exec (step _) p (startState o top d)).lv.size = _
+    rw [exec_size, startState_size]
+
+/-- the range check of the constructor / `set_levels`: an accepted range satisfies `top ≤ crs < size_virtual` -/
+theorem levelRange_spec (nl : Nat) (top crs : Int) (t c : Nat) (h : levelRange nl top crs = some (t, c)) :
+    t ≤ c ∧ c < nl := by
+  unfold levelRange at h
+  simp only at h
+  by_cases hc : crs ≥ 0
+  · simp only [if_pos hc] at h
+    by_cases hr : 0 ≤ crs ∧ crs < ↑nl ∧ 0 ≤ top ∧ top ≤ crs
+    · rw [if_pos hr] at h
+      simp only [Option.some.injEq, Prod.mk.injEq] at h
+      omega
+    · rw [if_neg hr] at h
+      cases h
+  · simp only [if_neg hc] at h
+    by_cases hr : 0 ≤ (↑nl + crs : Int) ∧ (↑nl + crs : Int) < ↑nl ∧ 0 ≤ top ∧ top ≤ ↑nl + crs
+    · rw [if_pos hr] at h
+      simp only [Option.some.injEq, Prod.mk.injEq] at h
+      omega
+    · rw [if_neg hr] at h
+      cases h
+
+/-- levels finer than the top level are not touched by the recursion program -/
+theorem cycleRec_frame (levels : Array Level) (k : Cycle) (cgc : Cgc) (top crs : Nat) (h : top ≤ crs)
+    (s : St) (hs : crs < s.lv.size) (j : Nat) (hj : j < top) :
+    (exec (step { levels := levels, cgc := cgc, crsLvl := crs }) (cycleRec k crs top) s).get j = s.get j :=
+  (visitEq_cycleRec { levels := levels, cgc := cgc, crsLvl := crs } k top h s hs).2.1 j hj
+
 /-- the result vector of the recursion program on the start state is the textbook operator applied to the defect -/
 theorem runProg_eq_applyRef (levels : Array Level) (k : Cycle) (cgc : Cgc) (top crs : Nat) (h : top ≤ crs)
     (d : Vec) (o : Obj) (ho : crs < o.lv.size) (cnt : Nat → Nat) :
